@@ -6,7 +6,7 @@
    on the separators (nosigb).  Concrete streams computed as non-vacuity. *)
 From PBK Require Import Base Bits BitsProofs Descr Frame FrameProofs FrameRoundtrip FrameExamples
   FramePrefix FramePrefixEnc Column DecodeC FramePrefixData
-  Stream StreamProofs StreamFrame StreamFrameProofs StreamFrameDamage.
+  Stream StreamProofs StreamFrame StreamFrameProofs StreamFrameDamage StreamFrameOverrun StreamFrameDamageStream.
 
 Section RealScanner.
 Variables (T_of : list (pname * pvalue) -> descs) (n_of : list (pname * pvalue) -> nat)
@@ -54,6 +54,22 @@ Theorem damaged_stop_hyps_template : forall ign json m x4,
   info_ok (frame_process dd view true) d.
 Proof. exact (damaged_stop_hyps dd Hp Hs Hc view). Qed.
 
+Theorem damaged_len4_hyps_template : forall ign json m sl nd v,
+  encode_message ign json = Ok m -> msg_wfb dd m = true ->
+  sec4_info m = Some (sl, nd) -> bad_len4b sl nd v = true ->
+  starts_sig (dmg_len4 (m_bytes m) sl v) /\
+  length (dmg_len4 (m_bytes m) sl v) = length (m_bytes m) /\
+  full_fails (frame_process dd view false) (dmg_len4 (m_bytes m) sl v) ELib /\
+  info_ok (frame_process dd view true) (dmg_len4 (m_bytes m) sl v).
+Proof. exact (damaged_len4_hyps dd Hp Hs Hc view). Qed.
+
+Theorem damaged_hyps_template : forall ign json m d,
+  encode_message ign json = Ok m -> msg_wfb dd m = true -> damage_okb m d = true ->
+  starts_sig (damage_bytes m d) /\ length (damage_bytes m d) = length (m_bytes m) /\
+  full_fails (frame_process dd view false) (damage_bytes m d) ELib /\
+  info_ok (frame_process dd view true) (damage_bytes m d).
+Proof. exact (damaged_hyps dd Hp Hs Hc view). Qed.
+
 (* the streams *)
 Theorem e2e_scan_exact_template : forall io coe sep0 items,
   nosigb sep0 = true -> forallb (item_okb dd io) items = true ->
@@ -79,19 +95,19 @@ Theorem e2e_continue_skips_damaged_template : forall sep0 items,
   = (map dmg_bytes (filter undamaged items), None).
 Proof. exact (e2e_continue_skips_damaged dd Hp Hs Hc view tdp filt). Qed.
 
-Theorem e2e_stops_at_damaged_template : forall sep0 items it x4 rest,
+Theorem e2e_stops_at_damaged_template : forall sep0 items it d rest,
   nosigb sep0 = true -> forallb (item_okb dd false) items = true ->
-  item_okb dd true it = true -> bad_stopb x4 = true ->
+  dmg_okb dd false (it, Some d) = true ->
   frame_generate dd view tdp filt false false false
-    (sep0 ++ assemble (stream_of items) ++ replace_stop (item_bytes it) x4 ++ rest)
+    (sep0 ++ assemble (stream_of items) ++ dmg_bytes (it, Some d) ++ rest)
   = (map item_bytes items, Some ELib).
 Proof. exact (e2e_stops_at_damaged dd Hp Hs Hc view tdp filt). Qed.
 
-Theorem e2e_info_mode_ignores_stop_signature_template : forall coe sep0 items,
+Theorem e2e_info_mode_delivers_damaged_template : forall coe sep0 items,
   nosigb sep0 = true -> forallb (dmg_okb dd true) items = true ->
   frame_generate dd view tdp filt true coe false (sep0 ++ assemble (dmg_stream items))
   = (map dmg_bytes items, None).
-Proof. exact (e2e_info_mode_ignores_stop_signature dd Hp Hs Hc view tdp filt). Qed.
+Proof. exact (e2e_info_mode_delivers_damaged dd Hp Hs Hc view tdp filt). Qed.
 End RealScanner.
 
 (* the same for the template-decoder stub of the correspondence runs *)
@@ -183,18 +199,25 @@ Example e2e_tabledef_not_quiet :
   item_okb e2e_dd true (true, e2e_json4 11 false ex_data, []) = true.
 Proof. split; vm_compute; reflexivity. Qed.
 
-(* C12: the second message's stop signature overwritten with '7778', the third's
-   with NULs; a table-definition message may be among the damaged ones *)
+(* C12: the second message's stop signature overwritten with '7778' (a
+   table-definition message may be among the damaged ones), the fourth's with
+   NULs, the fifth's section 4 (16 octets: 4 + 96 data bits) declared 8 octets long,
+   the sixth (edition 3, section 4 of 16 octets) declared 15 *)
 Definition e2e_dmg_items : list dmg_item :=
   [((true, e2e_json4 2 false ex_data, [13; 13; 10; 66; 85; 70]%N), None);
-   ((true, e2e_json4 11 false ex_data, []), Some [55; 55; 55; 56]%N);
+   ((true, e2e_json4 11 false ex_data, []), Some (DStop [55; 55; 55; 56]%N));
    ((true, e2e_json3 0, [10]%N), None);
-   ((true, e2e_json4 2 true ex_data_c, [66; 85; 0; 55; 55; 55; 55]%N), Some [0; 0; 0; 0]%N);
+   ((true, e2e_json4 2 true ex_data_c, [66; 85; 0; 55; 55; 55; 55]%N), Some (DStop [0; 0; 0; 0]%N));
+   ((true, e2e_json4 3 false ex_data, [66]%N), Some (DLen4 8));
+   ((true, e2e_json3 5, []), Some (DLen4 15));
    ((true, e2e_json3 7, []), None)].
 
 Example e2e_damage_nonvacuous :
   forallb (dmg_okb e2e_dd false) e2e_dmg_items = true /\
-  map undamaged e2e_dmg_items = [true; false; true; false; true] /\
+  map undamaged e2e_dmg_items = [true; false; true; false; false; false; true] /\
+  map (fun it => match item_msg (fst it) with Ok m => sec4_info m | Err _ => None end) e2e_dmg_items =
+    [Some (16%Z, 96%nat); Some (16%Z, 96%nat); Some (16%Z, 96%nat); Some (14%Z, 80%nat); Some (16%Z, 96%nat);
+     Some (16%Z, 96%nat); Some (16%Z, 96%nat)] /\
   outcome_eqb (frame_generate e2e_dd e2e_view e2e_tdp e2e_filt false true false
                  (e2e_sep0 ++ assemble (dmg_stream e2e_dmg_items)))
               (map dmg_bytes (filter undamaged e2e_dmg_items), None) = true /\
